@@ -43,14 +43,20 @@ def _null_fetcher(url):
     return None
 
 
+_CFG = {'log_enabled': True}
+
+
 def _parse(text):
-    """parseString with the log silenced and no access to the file system / network for @import targets"""
+    """parseString with the log silenced and no access to the file system / network for @import targets; _CFG['log_enabled'] False runs with the
+    library's error handler switched off (cssutils.log.enabled = False): what is parsed must not depend on whether problems are reported"""
     import cssutils
     cssutils.log.setLevel(logging.FATAL)
+    cssutils.log.enabled = _CFG['log_enabled']
     try:
         return cssutils.CSSParser(fetcher=_null_fetcher).parseString(text)
     finally:
         cssutils.log.raiseExceptions = True
+        cssutils.log.enabled = True
 
 
 def _project(text):
@@ -344,6 +350,8 @@ DECL_EXTRAS = (
     'x(y)', 'foo(x) bar', 'x y z v w', '$ ! x : y', '1 ! important', '1 ! x : y ! important', '( ( ( x ) ) )', '[ ( { ; } ) ]', 'f( g( x ) ) y', '{ x : y ; v : w }', 'x { y : z }',
     '$ " ; } "', "$ '\"' x", '"a" : b', 'x "\\"" y', '@foo x', '@foo { y : z }', '@foo { } @foo', '@media print { b { y : z } }', '@import "m.css"', '@page { y : z }',
     '@font-face { y : z }', '@charset "utf-8"', '@namespace q "u"', '$ ( @top-left { y : z } )', '* x : y', ': y', '$ ( ; x : y ; )', 'x [ ; y : z ; ]', '$ ( { ; y : z ; } )', 'x = y', 'x : ', 'x', '-x- y', '\\x y', 'x\\: y z',
+    # escaped structural characters inside names (the decoded token VALUE ends in a bracket, brace or semicolon although the token is no bracket)
+    'x\\28  y', '$ x\\28  y', '#a\\28  b', '1x\\28  y', 'x\\( y', 'x\\7b  y', 'x\\5b  y', 'x\\29  y', 'x\\7d  y', 'x\\5d  y', 'x\\3b  y', '\\28  y', '$ \\{ x', 'x\\000028 y',
     'x : url( y', 'x: "y', 'x: \'y',
 )
 # the last three are unbalanced on purpose: they are only used where the recovery is defined - not at all (kept out of the domain)
@@ -351,6 +359,7 @@ DECL_EXTRAS = tuple(g for g in DECL_EXTRAS if g not in ('x : url( y', 'x: "y', "
 RULE_EXTRAS = (
     'x..c', 'x:', '::', 'x#', 'x.', 'a:not()', 'a:not(b c)', ':nth-child(x y)', 'x[y=]', 'x[=y]', 'x[y z]', 'x,,y', 'x>>y', '.1', '#1', 'x.1', '1x', 'x & y', 'x | y', 'x|', '|', 'x % y',
     'x ( y )', 'x f( y )', '"a" x', 'x "a"', 'url(u)', 'x ! y', 'x = y', 'x $ y', '[ ]', '[ 1 ]', '( )', 'x [ ( ) ]', '-', '+ x', 'x +', '> x', ', x', 'x ,', '*|', 'x y z v w 1',
+    'x\\28  $', '$ x\\28  y', 'x\\7b  $', 'x\\5b  $', '$ #a\\28  b', 'x\\29  $', 'x\\( $', '$ x\\000028 y',
 )
 
 
@@ -660,13 +669,17 @@ def _w_at_garbage(args):
 
 def _w_extras(args):
     """domain 1d: hand-picked garbage (longer than the bound / glued tokens / misplaced at-rules) x all placements of the hosts, both spacings"""
-    lo, hi = args
+    lo, hi = args[0], args[1]
     res = {'n': 0, 'kinds': set(), 'fails': []}
     cases = _extras_cases()
-    for i in range(lo, hi):
-        mode, pl, g, tight = cases[i]
-        _try(res, pl, g, mode, (mode + '-extra', g), tight)
-        res['kinds'].add((pl[0], mode, g))
+    _CFG['log_enabled'] = not (len(args) > 2 and args[2] == 'log-off')
+    try:
+        for i in range(lo, hi):
+            mode, pl, g, tight = cases[i]
+            _try(res, pl, g, mode, (mode + '-extra', g) + (() if _CFG['log_enabled'] else ('log-off',)), tight)
+            res['kinds'].add((pl[0], mode, g, _CFG['log_enabled']))
+    finally:
+        _CFG['log_enabled'] = True
     return res
 
 
@@ -1121,12 +1134,12 @@ def extras(ctx):
     _init_placements()
     t0 = time.time()
     cases = _extras_cases()
-    tasks = _chunks(len(cases), ctx, ())
+    tasks = _chunks(len(cases), ctx, ()) + _chunks(len(cases), ctx, ('log-off',))
     results = _pool_run(ctx, _w_extras, tasks)
-    _report(ctx, results, 'hand-picked garbage and misplaced at-rules x all placements of the hosts x both spacings',
+    _report(ctx, results, 'hand-picked garbage and misplaced at-rules x all placements of the hosts x both spacings x error handler on / switched off',
             '%d malformed declarations and %d invalid selectors outside the token bound or with glued tokens, and the at-rules not allowed at the position (@import / @namespace / @charset behind other '
             'rules or in @media, a margin box outside @page), each at every placement of the hosts, written with and without optional white space' % (len(DECL_EXTRAS), len(RULE_EXTRAS)),
-            '%d cases' % len(cases), [{'garbage': DECL_EXTRAS[3]}, {'garbage': RULE_EXTRAS[0] + ' { }'}], t0, exhaustive=True)
+            '%d cases x 2 settings of cssutils.log.enabled' % len(cases), [{'garbage': DECL_EXTRAS[3]}, {'garbage': RULE_EXTRAS[0] + ' { }'}], t0, exhaustive=True)
 
 
 def damaged_sheets(ctx):
